@@ -240,7 +240,23 @@ def monitor(eng, obs, err, res):
 
 
 # ---------------------------------------------------------------- generators
-TASKS = ['pa', 'pb', 'p', 'pab']
+# base packages: short, made of common letters (the default of dawgie.context is 'ae')
+BASES = ['ae', 'ea', 'nae', 'sat', 'ab']
+
+
+def task_pool(base):
+    """task-package names, many of which start with characters of the base package name, and
+    pairs that differ only by such a prefix (mission / emission for base 'ae')"""
+    f, l = base[0], base[-1]
+    pool = ['mission', l + 'mission', f + 'mission', 'extract', 'analyze', 'pb', f + 'pb', l + f + 'pb',
+            'p', base[::-1] + 'p', 'network', 'noio', 'stage', base + 'x']
+    out = []
+    for t in pool:
+        if t != base and t not in out:
+            out.append(t)
+    return out
+
+
 ALGN = ['a', 'a1', 'a10', 'b', 'b1', 'ab', 'c', 'c2', 'd', 'a2']
 SVN = ['s', 's1', 'st', 't']
 VN = ['v', 'v1', 'w', 'x']
@@ -269,7 +285,13 @@ def gen_alg(r, used, tasks, kind=None):
 
 def gen_engine(r, n=None, shape=None):
     n = n or r.choice([1, 2, 3, 3, 4, 4, 5, 5, 6, 7, 8])
-    tasks = r.sample(TASKS, r.choice([1, 2, 2, 3]))
+    base = r.choice(BASES)
+    pool = task_pool(base)
+    tasks = r.sample(pool, r.choice([1, 2, 2, 3]))
+    if len(tasks) > 1 and r.random() < 0.3:
+        # a pair that differs only by leading characters taken from the base package name
+        tasks[1] = r.choice([base[-1], base[0], base[-1] + base[0]]) + tasks[0]
+        tasks = [t for i, t in enumerate(tasks) if t != base and t not in tasks[:i]]
     used = set()
     algs = [gen_alg(r, used, tasks) for _ in range(n)]
     shape = shape or r.choice(['random', 'random', 'random', 'chain', 'diamond', 'star', 'layers'])
@@ -299,7 +321,7 @@ def gen_engine(r, n=None, shape=None):
                 c['feedback'].append(gen_ref(r, r.choice(pool)))
     order = list(range(n))
     r.shuffle(order)  # declaration order is unrelated to the dependency order
-    return {'style': r.choice(['old', 'new']), 'algs': [algs[i] for i in order]}
+    return {'style': r.choice(['old', 'old', 'new']), 'base': base, 'algs': [algs[i] for i in order]}
 
 
 def A(task, kind, name, svs, inputs=(), feedback=()):
@@ -348,6 +370,20 @@ def corpus():
         A('p', 'task', 'a1', [('s', 'v')], [('V', 'p', 'a', 's', 'v')]),
         A('p', 'task', 'a10', [('s', 'v')], [('V', 'p', 'a', 's', 'v')]),
         A('pa', 'task', 'a', [('s', 'v')], [('V', 'p', 'a', 's', 'v'), ('V', 'p', 'a1', 's', 'v')])]})
+    # ordinary task-package names that begin with letters of the base package name, factory
+    # functions defined in the package (names.task_name derives the node prefix from the module)
+    out.append({'style': 'old', 'base': 'ae', 'algs': [
+        A('calib', 'task', 'dark', [('s', 'v')]),
+        A('extract', 'task', 'spectrum', [('s', 'vw')], [('A', 'calib', 'dark')]),
+        A('analyze', 'analysis', 'trend', [('s', 'v')], [('S', 'extract', 'spectrum', 's')])]})
+    # two packages that differ only by such a prefix and own an algorithm of the same name
+    out.append({'style': 'old', 'base': 'ae', 'algs': [
+        A('mission', 'task', 'engine', [('s', 'v')]),
+        A('emission', 'task', 'engine', [('s', 'v')], [('A', 'mission', 'engine')]),
+        A('emission', 'task', 'fit', [('s', 'v')], [('V', 'emission', 'engine', 's', 'v')])]})
+    out.append({'style': 'old', 'base': 'nae', 'algs': [
+        A('network', 'task', 'engine', [('s', 'v')]),
+        A('anetwork', 'regress', 'engine', [('s', 'v')], [('A', 'network', 'engine')])]})
     # a single algorithm; a lone root beside a chain
     out.append({'style': 'new', 'algs': [A('p', 'task', 'a', [('s', 'v')])]})
     out.append({'style': 'old', 'algs': [
@@ -477,7 +513,8 @@ def _work(item):
 def run(ctx, res):
     r = common.rng(ctx['seed'], 'C09')
     thorough = ctx['tier'] == 'thorough' or ctx['escalate']
-    res.rule = ('acyclic engines of 1-8 algorithms over task/analysis/regress bots of 1-3 packages, 1-3 state '
+    res.rule = ('acyclic engines of 1-8 algorithms over task/analysis/regress bots of 1-3 packages (short base package '
+                'names; task-package names that start with letters of the base name, pairs differing by such a prefix), 1-3 state '
                 'vectors with 1-3 values each, references at algorithm, state-vector and value level, chains, '
                 'diamonds, stars, layered and random DAGs, repeated references, feedback references; each is written '
                 'to disk as a Python package (old factory style or auto-registered classes), loaded by '
@@ -526,6 +563,9 @@ def run(ctx, res):
         res.count('case:' + tag)
         res.count('algorithms:%d' % len(eng['algs']))
         res.count('style:' + eng['style'])
+        res.count('base:' + eng.get('base', 'fresh'))
+        if any(a['task'][0] in eng.get('base', '') for a in eng['algs']):
+            res.count('task-name-starts-with-base-letter')
         nedges = len(alg_edges(eng))
         res.count('edges:%s' % (nedges if nedges < 6 else '6+'))
         res.count('feedback:%s' % ('yes' if any(a['feedback'] for a in eng['algs']) else 'no'))
